@@ -87,7 +87,43 @@ def main(tier):
                 cases.append(rel.case("sp%d" % n, t2))
                 same["sp%d" % n] = ("t%d" % n, "http %s %s" % (verb, "".join("/" + x for x in b["path"])), "@" + b["path"][0], t2)
                 break
+    # Tags directives that name many tags (method level, URL level, JSON-RPC method), also with a repeated name
+    many = {}
+    for k in (3, 4, 5, 7):
+        names = ["@t%d" % j for j in range(1, k + 1)]
+        for variant, lst in (("plain", names), ("reversed", names[::-1]), ("repeat", names + names[:1])):
+            text = "JSIGHT 0.3\n" + "".join("TAG %s\n" % x for x in names) + \
+                "GET /m\n  Tags %s\n  200 any\n" % " ".join(lst) + \
+                "URL /u\n  Tags %s\n  POST\n    200 any\n  PUT\n    200 any\n" % " ".join(lst) + \
+                "URL /r\n  Protocol json-rpc-2.0\n  Method mm\n    Tags %s\n    Result\n    {}\n" % " ".join(lst)
+            cid = "mt%d%s" % (k, variant)
+            cases.append(rel.case(cid, text))
+            many[cid] = (text, list(lst))      # as written (a repeated name stays repeated: nothing says otherwise)
     obs = harness("run", cases)
+    for cid, (text, want) in many.items():
+        o = obs[cid]
+        chk.evaluations += 1
+        chk.traces += 1
+        chk.nontrivial.add(text)
+        bad = None
+        if o["outcome"] != "ok":
+            bad = "a document whose Tags directives name %d declared tags is not accepted: %s" % (len(want), rel.describe(o))
+        else:
+            got = apidoc.project(o["json"])[0]
+            for i in got["interactions"]:
+                if i["tags"] != want:
+                    bad = "interaction %s: tags %s, its Tags directive names %s" % (i["id"], i["tags"], want)
+                    break
+            if not bad:
+                ids = sorted(i["id"] for i in got["interactions"])
+                for t in got["tags"]:
+                    listed = sorted(set((t.get("http") or []) + (t.get("rpc") or [])))
+                    if t["name"] in want and listed != ids:
+                        bad = "tag %s lists %s, it is named by %s" % (t["name"], listed, ids)
+                        break
+        if bad:
+            sig = {"level": "end-to-end", "what": "many tags"}
+            chk.violation(bad + " | document:\n" + text[:1200], {"kind": "tags_many", "file": text, "observed": o, "signature": sig}, sig)
     for cid, (bid, iid, auto, t2) in same.items():
         a, o = obs[bid], obs[cid]
         chk.evaluations += 1
